@@ -51,6 +51,14 @@ CHECKS = {
                      "Results are projected back into the physical east-north-up frame (coordinates, covariances, ellipses, adjusted observations, "
                      "orientation unknowns, statistics) and must satisfy the law of the edit.",
                 note="trusted: projection code; tolerances 3e-6 m, 3e-7 gon, 5e-5 relative (printed precision, iteration threshold)", ref="8/C07"),
+    "C09": dict(cat="exploration", technique="result invariant StatsConsistent on every run of TLC-generated sessions + SetSigmaApr/SetConfPr laws",
+                text="Every adjusted result of SurveySession sessions (noisy networks, both sigma-act settings, conf-pr grid, sigma-apr factors, four "
+                     "algorithms) is checked field against field: dof = eq - unk + defect, aposteriori = sqrt(v'Pv/dof), confidence scale against the "
+                     "normal/Student reference table, test interval against chi-square, ellipse semi-axes/eigen-direction against the 2x2 covariance, "
+                     "homogenised projector h recovered from the reported sigma of each adjusted observation: qrr = (1-h)/p, f, standardised residual, "
+                     "sum(1-h) = dof; laws of SetSigmaApr and SetConfPr between runs.",
+                note="trusted: quantile table generated once with scipy (spec/data/quantiles_ref.json); a priori sigmas are those of the generated input; "
+                     "observations in correlated clusters are excluded from the per-observation identities", ref="8/C09"),
 }
 
 NOT_APPLICABLE = []
